@@ -1,4 +1,5 @@
 import CoapVerif.Lemmas.ServerSeq
+import CoapVerif.Lemmas.Async
 /-
 C10 — server answers each request datagram once, with the protocol-prescribed code.
 
@@ -602,5 +603,132 @@ example : (M.serverSeq exCfg exTbl Hist.empty [exDefer, exOther, exAgain]).map (
     [([0], true), ([69], true), ([0], false)] := by decide
 example := (pending_of_others_irrelevant exCfg exTbl [exDefer] exOther (by decide) (by decide)).1
 example : Admitted exCfg exTbl exAgain.rq := exAdmitted _ _ (by decide) (by decide) (by decide)
+
+/-! ## ASYNC — deferred responses: the delayed invocation (coap_async.c, coap_check_async), Model/Async.lean
+All statements hold for every pair of decision procedures `dec` of handle_request (in particular for
+`Async.serverDec cfg tbl`, the C10 model), every configuration, every state / every event sequence. -/
+section Async
+open Coap.Async
+
+/-- coap_check_async hands to the application exactly the entries whose time has come (`delay ≠ 0 ∧ delay ≤ now`), each
+exactly once, in list order, each with exactly its stored request (`dec.again entry.req v`), and exactly these are
+removed; an entry whose time has not come (or that waits for a trigger: delay 0) is never handed over -/
+theorem async_fires_exactly_the_due (c : Async.Cfg) (dec : Dec) (v : Verdict) (st : St) :
+    (prepare c dec v st).2.fired.map (·.entry) = st.async.filter (L.due st.now) ∧
+    (prepare c dec v st).1.async = st.async.filter (fun e => !L.due st.now e) ∧
+    (∀ f ∈ (prepare c dec v st).2.fired, f.out = dec.again f.entry.req v) ∧
+    (∀ f ∈ (prepare c dec v st).2.fired, f.entry ∈ st.async ∧ f.entry.delay ≠ 0 ∧ f.entry.delay ≤ st.now) := by
+  have h := L.prepare_fired c dec v st
+  refine ⟨h.1, h.2.1, h.2.2.1, ?_⟩
+  intro f hf
+  have hm : f.entry ∈ (prepare c dec v st).2.fired.map (·.entry) := List.mem_map_of_mem hf
+  rw [h.1, List.mem_filter] at hm
+  refine ⟨hm.1, ?_⟩
+  have := hm.2
+  unfold L.due at this
+  exact of_decide_eq_true this
+
+/-- every event: whatever is handed to the application by a delayed invocation was registered (in the list before the
+event, or registered by this very datagram) and its time has come; an entry that was freed or has fired is in no later
+list (`async_fires_exactly_the_due`: the list afterwards has no due entry), so it is never handed over again -/
+theorem async_fired_were_registered (c : Async.Cfg) (dec : Dec) (st : St) (ev : Async.Ev) :
+    ∀ f ∈ (step c dec st ev).2.fired,
+      (f.entry ∈ st.async ∨ (step c dec st ev).2.registered = some f.entry) ∧ f.entry.delay ≠ 0 ∧
+      f.entry.delay ≤ (step c dec st ev).1.now ∧ f.out = dec.again f.entry.req
+        (match ev with | .rx _ _ rq => rq.verdict | .io _ v => v | _ => ⟨0, []⟩) := by
+  intro f hf
+  cases ev with
+  | rx p defer rq =>
+    simp only [step] at hf ⊢
+    have h := async_fires_exactly_the_due c dec rq.verdict (rxOwn c dec st p defer rq).1.1
+    have h4 := h.2.2.2 f hf
+    have h3 := h.2.2.1 f hf
+    have hnow := (L.prepare_fired c dec rq.verdict (rxOwn c dec st p defer rq).1.1).2.2.2
+    have hr := L.rxOwn_async c dec st p defer rq
+    refine ⟨?_, h4.2.1, by rw [hnow]; exact h4.2.2, h3⟩
+    rcases hr.2 with hr | ⟨e, he1, he2⟩
+    · rw [hr.1] at h4; exact Or.inl h4.1
+    · rw [he2] at h4
+      rcases List.mem_cons.mp h4.1 with hm | hm
+      · exact Or.inr (by rw [he1, hm])
+      · exact Or.inl hm
+  | io dt v =>
+    simp only [step] at hf ⊢
+    have h := async_fires_exactly_the_due c dec v { st with now := (st.now + dt) % W }
+    have h4 := h.2.2.2 f hf
+    exact ⟨Or.inl h4.1, h4.2.1, h4.2.2, h.2.2.1 f hf⟩
+  | trigger k => simp [step] at hf
+  | setDelay k d => simp [step] at hf
+  | free k =>
+    simp only [step] at hf
+    split at hf <;> simp at hf
+
+/-- the wait coap_check_async reports is not 0 and not later than the earliest deadline among the entries that stay
+(clock not 0, delays below 2^64: what coap_async_set_delay / coap_async_trigger store) -/
+theorem async_wait_le_earliest_deadline (c : Async.Cfg) (dec : Dec) (v : Verdict) (st : St)
+    (hnow : 0 < st.now ∧ st.now < W) (hl : ∀ e ∈ st.async, e.delay < W) :
+    ∀ e ∈ (prepare c dec v st).1.async, e.delay ≠ 0 →
+      ∃ w, (prepare c dec v st).2.wait = some w ∧ 0 < w ∧ st.now < e.delay ∧ w ≤ e.delay - st.now := by
+  intro e he h0
+  rw [(L.prepare_fired c dec v st).2.1, List.mem_filter] at he
+  have hd : L.due st.now e = false := by simpa using he.2
+  have hlt : st.now < e.delay := by
+    apply Nat.lt_of_not_le
+    intro hle
+    have : L.due st.now e = true := L.due_pos ⟨h0, hle⟩
+    rw [hd] at this; exact absurd this (by decide)
+  have hw := (L.check_wait dec v st.now hnow st.async st.sess 0 hl).2 e he.1 hd
+  rw [L.dist_eq hnow.2 (hl e he.1) hlt] at hw
+  exact ⟨_, rfl, Nat.pos_of_ne_zero hw.1, hlt, hw.2⟩
+
+/-- after EVERY event sequence at a fresh context there is at most one entry per (session, token) -/
+theorem async_one_entry_per_session_token (c : Async.Cfg) (dec : Dec) (evs : List Async.Ev) :
+    ((final c dec (St.init c) evs).async.map L.key).Nodup :=
+  L.final_uniq c dec evs (St.init c) List.nodup_nil
+
+/-- a request of a session that has an entry with the request's token (a retransmission of the deferred request, D11):
+handle_request is told so (`hit = true`), nothing is registered — no second entry —, and the list only loses what the
+I/O step that follows hands to the application -/
+theorem async_retransmission_no_second_entry (c : Async.Cfg) (dec : Dec) (st : St) (p : Nat) (defer : Option Nat) (rq : Request)
+    (e : Entry) (h : find st.async p rq.msg.token = some e) :
+    (step c dec st (.rx p defer rq)).2.registered = none ∧
+    (step c dec st (.rx p defer rq)).2.first =
+      some (dec.first true (if defer.isSome then { rq with verdict := ⟨0, []⟩ } else rq)) ∧
+    (step c dec st (.rx p defer rq)).1.async = st.async.filter (fun e => !L.due st.now e) := by
+  have hh := L.rxOwn_hit c dec st p defer rq e h
+  simp only [step]
+  refine ⟨by rw [hh.1], by rw [hh.2], ?_⟩
+  rw [(L.prepare_fired ..).2.1, hh.1]
+
+/-- … and with the C10 model of handle_request that retransmission is answered by an Empty ACK only (Confirmable) or
+not at all (Non-confirmable), no handler runs -/
+theorem async_retransmission_acked_only (cfg : Server.Cfg) (tbl : Table) (rq : Request) (hfit : fits cfg)
+    (h : Admitted cfg tbl rq) (hobs : hasOpt rq.msg.opts 6 = false) :
+    ((serverDec cfg tbl).first true rq).erase =
+      ⟨true, if rq.msg.type = CON then [S.lib ACK 0 rq.msg.mid []] else [], none⟩ := by
+  simp only [serverDec, hobs, Bool.false_eq_true, if_false]
+  rw [decisionA_eq_specA true false cfg tbl rq hfit]
+  exact deferred_retransmission_acked E false cfg tbl rq h
+
+/-! non-vacuity: GET /a from peer 1 deferred for 500 ticks, retransmitted, 499 ticks pass (nothing), 1 more tick (the
+delayed invocation: the handler is given the stored request and its 2.05 goes out as a separate Confirmable response) -/
+def exACfg : Async.Cfg := ⟨1000, 2000, 32896⟩
+def exARun : List Async.Ev :=
+  [.rx 1 (some 500) exAgain.rq, .rx 1 none exAgain.rq, .io 499 ⟨69, [104, 105]⟩, .io 1 ⟨69, [104, 105]⟩]
+example : (run exACfg (serverDec exCfg exTbl) (St.init exACfg) exARun).map
+      (fun o => [(o.first.map (fun x => x.replies.map (·.code))).getD [], (o.first.map (fun x => x.replies.map (·.type))).getD [],
+                 [(o.registered.map (·.delay)).getD 0, o.wait.getD 0],
+                 o.fired.map (·.entry.id), (o.fired.map (fun f => f.out.replies.map (·.code))).flatten,
+                 (o.fired.map (fun f => f.out.replies.map (·.type))).flatten,
+                 (o.fired.map (fun f => f.out.replies.map (·.mid))).flatten,
+                 (o.fired.map (fun f => (f.out.call.map (fun c => c.opts.map (·.1))).getD [])).flatten]) =
+    [[[0], [2], [1500, 500], [], [], [], [], []], [[0], [2], [0, 500], [], [], [], [], []],
+     [[], [], [0, 1], [], [], [], [], []], [[], [], [0, 0], [0], [69], [0], [32897], [11]]] := by decide
+def exASt : St := (step exACfg (serverDec exCfg exTbl) (St.init exACfg) (.rx 1 (some 500) exAgain.rq)).1
+example : (find exASt.async 1 exAgain.rq.msg.token).isSome = true := by decide
+example : (0 < exASt.now ∧ exASt.now < W) ∧ (∀ e ∈ exASt.async, e.delay < W) ∧ exASt.async ≠ [] := by decide
+example : fits exCfg ∧ hasOpt exAgain.rq.msg.opts 6 = false := by decide
+
+end Async
 
 end Coap.C10
